@@ -336,3 +336,71 @@ Proof.
   intros h t Ht. unfold run_op, tick_view. cbn [op_init].
   rewrite (run_zip_tick h []). rewrite (spec_run_nth zip_tick_spec h [] t [] []) by exact Ht. reflexivity.
 Qed.
+
+(* ------------------------------------------------------------------ zip<'static,'static> *)
+
+(* both queues survive the tick: the tick emits the part of the zip of everything seen so far
+   that was not emitted before *)
+Definition zip_static_spec (pre : list (list (list val))) (cur : list (list val)) : list (list val) :=
+  [skipn (Nat.min (length (items pre 0)) (length (items pre 1)))
+         (vzip (items pre 0 ++ port 0 cur) (items pre 1 ++ port 1 cur))].
+
+Lemma combine_skipn : forall {A B} n (l : list A) (r : list B),
+  combine (skipn n l) (skipn n r) = skipn n (combine l r).
+Proof.
+  induction n as [|n IH]; intros l r; [reflexivity|].
+  destruct l as [|x l]; destruct r as [|y r]; cbn [skipn combine]; try reflexivity.
+  - destruct (skipn n l); reflexivity.
+  - apply IH.
+Qed.
+
+Lemma skipn_map' : forall {A B} (f : A -> B) n l, skipn n (map f l) = map f (skipn n l).
+Proof. induction n as [|n IH]; intros [|x l]; cbn [skipn map]; try reflexivity. apply IH. Qed.
+
+Lemma skipn_skipn' : forall {A} x y (l : list A), skipn x (skipn y l) = skipn (x + y) l.
+Proof.
+  intros A x y. revert x. induction y as [|y IH]; intros x l.
+  - rewrite Nat.add_0_r. reflexivity.
+  - destruct l as [|a l]; [rewrite !skipn_nil; reflexivity|].
+    rewrite Nat.add_succ_r. cbn [skipn]. apply IH.
+Qed.
+
+Lemma skipn_app_le : forall {A} n (l r : list A), (n <= length l)%nat -> skipn n (l ++ r) = skipn n l ++ r.
+Proof.
+  intros A n l r H. rewrite skipn_app. replace (n - length l)%nat with 0%nat by lia. reflexivity.
+Qed.
+
+Definition zip_state (pre : list (list (list val))) : ostate :=
+  let m := Nat.min (length (items pre 0)) (length (items pre 1)) in
+  {| st_ports := [skipn m (items pre 0); skipn m (items pre 1)] |}.
+
+Lemma run_zip_static : forall h pre,
+  run_from (OZip Static Static) (zip_state pre) h = spec_run zip_static_spec pre h.
+Proof.
+  induction h as [|c r IH]; intros pre; cbn [run_from spec_run]; [reflexivity|].
+  unfold zip_state at 1. cbn [op_step op_end st_ports port nth].
+  set (L := items pre 0). set (R := items pre 1). set (m := Nat.min (length L) (length R)).
+  set (cl := port 0 c). set (cr := port 1 c).
+  assert (HmL : (m <= length L)%nat) by (unfold m; lia).
+  assert (HmR : (m <= length R)%nat) by (unfold m; lia).
+  rewrite <- (skipn_app_le m L cl HmL). rewrite <- (skipn_app_le m R cr HmR).
+  set (L' := L ++ cl). set (R' := R ++ cr).
+  set (n := Nat.min (length (skipn m L')) (length (skipn m R'))).
+  f_equal.
+  - unfold zip_static_spec. fold L R m. fold cl cr L' R'. f_equal.
+    unfold vzip. unfold n. rewrite combine_firstn_min. rewrite combine_skipn. symmetry. apply skipn_map'.
+  - rewrite <- IH. f_equal. unfold zip_state. cbn [st_ports].
+    rewrite !items_app. fold L R cl cr L' R'.
+    rewrite !skipn_skipn'.
+    assert (Hn : (n + m)%nat = Nat.min (length L') (length R')).
+    { unfold n. rewrite !skipn_length. unfold L', R'. rewrite !app_length. lia. }
+    rewrite Hn. reflexivity.
+Qed.
+
+Theorem zip_static_correct : forall h t,
+  (t < length h)%nat -> nth t (run_op (OZip Static Static) h) [] = tick_view zip_static_spec h t.
+Proof.
+  intros h t Ht. unfold run_op, tick_view. cbn [op_init].
+  change {| st_ports := [[]; []] |} with (zip_state []).
+  rewrite run_zip_static. rewrite (spec_run_nth zip_static_spec h [] t [] []) by exact Ht. reflexivity.
+Qed.
